@@ -103,29 +103,15 @@ func (m *Module) InjectEvent(sourceEventName, targetModuleName, targetEventName 
 
 func (m *Module) runEventHook(hook *eventHook, event string, data interface{}) {
 	// check if source module is ready for handling
-	if m.Status() != StatusOnline {
-		// source module has not yet fully started, wait until start is complete
-		select {
-		case <-m.StartCompleted():
-			// continue with hook execution
-		case <-hook.hookingModule.Stopping():
-			return
-		case <-m.Stopping():
-			return
-		}
+	// if it has not yet fully started, wait until start is complete
+	if !waitForStart(m, hook.hookingModule) {
+		return
 	}
 
-	// check if destionation module is ready for handling
-	if hook.hookingModule.Status() != StatusOnline {
-		// target module has not yet fully started, wait until start is complete
-		select {
-		case <-hook.hookingModule.StartCompleted():
-			// continue with hook execution
-		case <-hook.hookingModule.Stopping():
-			return
-		case <-m.Stopping():
-			return
-		}
+	// check if destination module is ready for handling
+	// if it has not yet fully started, wait until start is complete
+	if !waitForStart(hook.hookingModule, m) {
+		return
 	}
 
 	err := hook.hookingModule.RunWorker(
@@ -137,6 +123,28 @@ func (m *Module) runEventHook(hook *eventHook, event string, data interface{}) {
 	if err != nil {
 		log.Warningf("%s: failed to execute event hook %s/%s -> %s/%s: %s", hook.hookingModule.Name, m.Name, event, hook.hookingModule.Name, hook.description, err)
 	}
+}
+
+// waitForStart waits until the module has completed starting and reports
+// whether it did. It gives up as soon as the module or the other module
+// involved in the event is stopped.
+// The context of a module is also canceled when it is replaced by start():
+// this is not a stop and the wait continues on the new context.
+func waitForStart(m, other *Module) bool {
+	for m.Status() != StatusOnline {
+		select {
+		case <-m.StartCompleted():
+		case <-m.Stopping():
+			if m.IsStopping() {
+				return false
+			}
+		case <-other.Stopping():
+			if other.IsStopping() {
+				return false
+			}
+		}
+	}
+	return true
 }
 
 // RegisterEvent registers a new event to allow for registering hooks.
